@@ -120,13 +120,22 @@ def gen_cases(tier, seed):
     for _ in range(200 if quick else 1000):
         n = rng.randint(2, 40 if quick else 200) if rng.random() < 0.15 or quick else rng.randint(2, 80)
         dtype = rng.choice(["int16", "float32"])
-        style = rng.choice(["ties", "trend", "noise", "fewvals"])
+        style = rng.choice(["ties", "trend", "noise", "fewvals", "inflated"])
         if style == "ties":
             xi = [rng.randint(0, max(1, n // 4)) for _ in range(n)]
         elif style == "trend":
             xi = [int(t * rng.choice([-3, 2, 5]) + rng.gauss(0, n)) for t in range(n)]
         elif style == "noise":
             xi = [rng.randint(-10000, 10000) for _ in range(n)]
+        elif style == "inflated":
+            # one value in most of the cells and a ramp at one end: more than half of the pairs are tied (Sen's slope is 0)
+            # while S is large - the flag follows Z, not the slope
+            n = max(n, rng.randint(8, 30))
+            k = int(n * rng.choice([0.6, 0.75, 0.85]))
+            ramp = sorted(rng.randint(1, 9) for _ in range(n - k))
+            xi = [0] * k + ramp if rng.random() < 0.5 else ramp[::-1] + [0] * k
+            if rng.random() < 0.5:
+                xi = [-v for v in xi]
         else:
             xi = [rng.choice([0, 1]) for _ in range(n)]
         api = rng.choice(["1d", "gu", "gund", "mktrend", "mktrend_nd", "mktrend_dask", "mktrend_nd_dask"])
